@@ -42,6 +42,7 @@ type FileObs struct {
 }
 
 type History struct {
+	RateSeen map[float64]bool // every BloomFalsePositiveRate an engine of this history was configured with
 	ExtCompression bs.CompressionType          // compression the next external file is written with ("" = none)
 	CompSeen       map[bs.CompressionType]bool // every compression an engine of this history was configured with
 	PadBytes       int                         // when > 0 every generated row gets a compressible filler of up to this many bytes
@@ -124,7 +125,7 @@ func genHistConfig(r Rng) (bs.BloomSearchEngineConfig, tokMode, string, []string
 
 func NewHistory(r Rng) *History {
 	cfg, tm, pm, keys := genHistConfig(r)
-	return &History{Env: NewEnv(cfg), TM: tm, PartMode: pm, Keys: keys, Rows: map[int]*StoredRow{}, CompSeen: map[bs.CompressionType]bool{normComp(cfg.RowDataCompression): true}}
+	return &History{Env: NewEnv(cfg), TM: tm, PartMode: pm, Keys: keys, Rows: map[int]*StoredRow{}, CompSeen: map[bs.CompressionType]bool{normComp(cfg.RowDataCompression): true}, RateSeen: map[float64]bool{cfg.BloomFalsePositiveRate: true}}
 }
 
 // genHistRow draws a row with partition / minmax fields mixed in.
@@ -234,8 +235,13 @@ func (h *History) Run(r Rng, n int, rep *Report) {
 			if h.CompSeen != nil {
 				h.CompSeen[normComp(h.Env.Cfg.RowDataCompression)] = true
 			}
+			if h.RateSeen != nil && r.Chance(0.4) {
+				// … or with another false-positive rate: what is written from now on is sized for the new rate
+				h.Env.Cfg.BloomFalsePositiveRate = pick(r, []float64{1e-4, 0.001, 0.01, 0.2, 0.9})
+				h.RateSeen[h.Env.Cfg.BloomFalsePositiveRate] = true
+			}
 			h.Env.Reopen()
-			h.Ops = append(h.Ops, "reopen compression="+string(h.Env.Cfg.RowDataCompression))
+			h.Ops = append(h.Ops, fmt.Sprintf("reopen compression=%s fp-rate=%g", h.Env.Cfg.RowDataCompression, h.Env.Cfg.BloomFalsePositiveRate))
 		default:
 			h.externalFile(r, rep)
 		}
